@@ -136,6 +136,8 @@ fn run_hist(id: &str, case: &Case, root: &Path) -> (String, String) {
     let mut facts: Vec<String> = vec![];
     let mut trace: Vec<String> = vec![];
     let mut lastpub: i64 = -1;
+    // a text is identified by the first event after which the document had exactly this text (the model's `Text` is this number)
+    let mut texts: Vec<String> = vec![];
     for (i, ev) in case.events.iter().enumerate() {
         let r = match ev {
             Ev::Open => client.open(&uri, &text),
@@ -151,13 +153,15 @@ fn run_hist(id: &str, case: &Case, root: &Path) -> (String, String) {
             Ev::Sleep(ms) => { std::thread::sleep(Duration::from_millis(*ms)); client.drain(); Ok(()) }
         };
         if let Err(e) = r { trace.push(format!("(error {})", quote(&e))); }
+        texts.push(text.clone());
+        let ver = texts.iter().position(|t| *t == text).unwrap_or(i) + 1;
         let new = &client.responses[seen..];
         let logs: Vec<&str> = new.iter().filter_map(log_text).collect();
         let published = last_pub(new, &uri).is_some();
         if published { lastpub = i as i64; }
         match ev {
             Ev::Open => {
-                facts.push(format!("(open (parse {}))", pr_sexp(&parse(&text))));
+                facts.push(format!("(open (ver {}) (parse {}))", ver, pr_sexp(&parse(&text))));
                 trace.push(format!("(open {})", if published { "pub" } else { "nopub" }));
             }
             Ev::Change(chs) => {
@@ -165,7 +169,7 @@ fn run_hist(id: &str, case: &Case, root: &Path) -> (String, String) {
                 let patched = logs.iter().any(|l| l.contains(": hir_diff: "));
                 let noast = logs.iter().any(|l| l.contains("AST not found"));
                 let edits: Vec<String> = chs.iter().map(|c| format!("({} {} {} {} {})", c.0, c.1, c.2, c.3, quote(&c.4))).collect();
-                facts.push(format!("(change (edits {}) (lower {}) (parse {}))", edits.join(" "), patched, pr_sexp(&parse(&text))));
+                facts.push(format!("(change (edits {}) (ver {}) (lower {}) (parse {}))", edits.join(" "), ver, patched, pr_sexp(&parse(&text))));
                 let q = match d {
                     Some(d) => format!("(qc {}{})", d, if patched { " patched" } else { "" }),
                     None => if noast { "qc-noast".to_string() } else { "noqc".to_string() },
@@ -336,7 +340,16 @@ fn gen_doc(rng: &mut Rng, deps: bool, next: &mut usize) -> Vec<Item> {
 fn gen_edit(rng: &mut Rng, items: &mut Vec<Item>, deps: bool, next: &mut usize, hist: &mut Vec<&'static str>) -> Change {
     let lo = if deps { 1 } else { 0 }; // the import line is never touched
     let n = items.len();
-    let pick = rng.below(100);
+    let pick = rng.below(106);
+    if pick >= 100 && n > 0 {
+        // a no-op edit: a whole first line replaced by itself (range starts at column 0, so the quick check runs on a text that does not change)
+        let at = rng.below(n as u64) as usize;
+        let l = line_of(items, at);
+        let t = items[at].text();
+        let first = t.split('\n').next().unwrap_or("").to_string();
+        hist.push("noop");
+        return (l, 0, l, first.len() as u32, first);
+    }
     if pick < 22 || n <= lo {
         // insert a definition
         let at = lo + rng.below((n - lo + 1) as u64) as usize;
